@@ -167,6 +167,8 @@ type Pool struct {
 }
 
 // Get takes an object from the pool.
+//
+//go:norace
 func (p *Pool) Get() interface{} {
 	if !simrt.InTask() {
 		if v := p.real.Get(); v != nil {
@@ -185,6 +187,8 @@ func (p *Pool) Get() interface{} {
 		if !simrt.PoolDrop() {
 			v := p.items[n-1]
 			p.items = p.items[:n-1]
+			// a sync.Pool orders Put(x) before the Get that returns x
+			raceAcquire(unsafe.Pointer(p))
 			return v
 		}
 		p.items = p.items[:0]
@@ -196,6 +200,8 @@ func (p *Pool) Get() interface{} {
 }
 
 // Put returns an object to the pool.
+//
+//go:norace
 func (p *Pool) Put(x interface{}) {
 	if x == nil {
 		return
@@ -208,7 +214,8 @@ func (p *Pool) Put(x interface{}) {
 	if e := simrt.Epoch(); p.epoch != e {
 		p.epoch, p.items = e, nil
 	}
-	p.items = append(p.items, x)
+	raceReleaseMerge(unsafe.Pointer(p))
+	p.items = simrt.AppendNR(p.items, x)
 }
 
 // Cond is sync.Cond under the scheduler.
